@@ -97,6 +97,10 @@ func (g *gen) layout() {
 	for i := 1; i < n; i++ {
 		g.doc.Files = append(g.doc.Files, &DFile{Path: pathPool[(perm+i*4)%len(pathPool)]})
 	}
+	if n >= 3 && g.r.Chance(35) {
+		pair := [][2]string{{"d1/x.thrift", "d1/base.thrift"}, {"d2/a.thrift", "d2/base.thrift"}}[g.r.Intn(2)]
+		g.doc.Files[1].Path, g.doc.Files[2].Path = pair[0], pair[1]
+	}
 	// distinct paths
 	seen := map[string]bool{}
 	var fs []*DFile
@@ -129,7 +133,11 @@ func (g *gen) layout() {
 			}
 		}
 		for i := 0; i < j; i++ {
-			if g.r.Chance(25) && canInc(i, j) {
+			p := 25
+			if di := strings.LastIndex(fs[i].Path, "/"); di >= 0 && strings.HasPrefix(fs[j].Path, fs[i].Path[:di+1]) {
+				p = 70 // files of one directory include each other more often (paths written relative to it)
+			}
+			if g.r.Chance(p) && canInc(i, j) {
 				fs[i].Includes = append(fs[i].Includes, j)
 			}
 		}
@@ -153,6 +161,27 @@ func (g *gen) layout() {
 		for i := len(f.Includes) - 1; i > 0; i-- {
 			j := g.r.Intn(i + 1)
 			f.Includes[i], f.Includes[j] = f.Includes[j], f.Includes[i]
+		}
+	}
+	// an include of a file in the includer's own directory may be written relative to that directory
+	// (the parser tries the path as given first, then the includer's directory): written path ≠ Filename
+	rootHas := map[string]bool{}
+	for _, f := range fs {
+		if !strings.Contains(f.Path, "/") {
+			rootHas[f.Path] = true
+		}
+	}
+	for _, f := range fs {
+		f.IncPaths = make([]string, len(f.Includes))
+		di := strings.LastIndex(f.Path, "/")
+		if di < 0 {
+			continue
+		}
+		for k, j := range f.Includes {
+			p := fs[j].Path
+			if strings.HasPrefix(p, f.Path[:di+1]) && !rootHas[p[di+1:]] && g.r.Chance(60) {
+				f.IncPaths[k] = p[di+1:]
+			}
 		}
 	}
 	g.types = make([]map[string]*tinfo, n)
